@@ -34,10 +34,21 @@ type verifBehaviour struct {
 }
 
 type verifRunner struct {
+	afterCrash map[string]bool // topic -> a crash happened since the last accepted publish
 	w   *verifWorld
 	b   *verifBehaviour
 	out *json.Encoder
 	t   testing.TB
+}
+
+func verifSessNum(n string) int {
+	v := 0
+	for _, c := range n {
+		if c >= '0' && c <= '9' {
+			v = v*10 + int(c-'0')
+		}
+	}
+	return v
 }
 
 func verifStr(m map[string]any, k string) string {
@@ -299,6 +310,39 @@ func (r *verifRunner) step(a map[string]any) (string, error) {
 			if len(tp.sessions) == 0 {
 				tp.killTimer.Reset(time.Nanosecond)
 				time.Sleep(200 * time.Microsecond)
+			}
+		}
+		return "", w.quiesce()
+	case "Reload":
+		// composite: every attached session leaves, the idle timer fires (real unload path), the same sessions re-subscribe
+		var names []string
+		if tp := w.hub.topicGet(w.canon(t)); tp != nil && !tp.isInactive() {
+			for s := range tp.sessions {
+				for n, x := range w.sess {
+					if x.s == s {
+						names = append(names, n)
+					}
+				}
+			}
+		}
+		sort.Slice(names, func(i, j int) bool { return verifSessNum(names[i]) < verifSessNum(names[j]) })
+		for _, n := range names {
+			x := w.sess[n]
+			if err := w.send(x, map[string]any{"leave": map[string]any{"id": w.id(), "topic": w.addr(x, t, false)}}, true); err != nil {
+				return "", err
+			}
+		}
+		if tp := w.hub.topicGet(w.canon(t)); tp != nil && !tp.isInactive() && len(tp.sessions) == 0 {
+			tp.killTimer.Reset(time.Nanosecond)
+			time.Sleep(200 * time.Microsecond)
+		}
+		if err := w.quiesce(); err != nil {
+			return "", err
+		}
+		for _, n := range names {
+			x := w.sess[n]
+			if err := w.send(x, map[string]any{"sub": map[string]any{"id": w.id(), "topic": w.addr(x, t, false)}}, true); err != nil {
+				return "", err
 			}
 		}
 		return "", w.quiesce()
@@ -774,7 +818,23 @@ func (r *verifRunner) record(i int, a map[string]any, id string, stepErr error) 
 	if calls == nil {
 		calls = []string{}
 	}
-	rec := map[string]any{"b": r.b.Id, "i": i, "act": a, "rid": id, "reply": reply, "frames": frames, "push": pushes,
+	if r.afterCrash == nil {
+		r.afterCrash = map[string]bool{}
+	}
+	ac := r.afterCrash[verifStr(a, "t")]
+	if verifStr(a, "a") == "Restart" || (verifStr(a, "a") == "Fault" && verifStr(a, "mode") == "crash") {
+		for _, tn := range r.b.Cfg.Topics {
+			r.afterCrash[tn] = true
+		}
+	}
+	if verifStr(a, "a") == "Pub" {
+		if rm, ok := reply.(map[string]any); ok {
+			if c, _ := rm["code"].(int); c == 202 {
+				r.afterCrash[verifStr(a, "t")] = false
+			}
+		}
+	}
+	rec := map[string]any{"b": r.b.Id, "i": i, "act": a, "rid": id, "reply": reply, "afterCrash": ac, "frames": frames, "push": pushes,
 		"st": r.snapshot(), "calls": calls, "faultFired": faultFired, "err": ""}
 	if reply == nil {
 		rec["reply"] = map[string]any{"k": "none", "code": 0}
